@@ -1179,7 +1179,9 @@ pub fn run_one(scn: &Value) -> Vec<Value> {
     }
     let _ = pending_before;
     let closes: Vec<Value> = w.nets.iter().map(|(t, n)| json!({"net": t, "codes": n.lock().local_close.clone()})).collect();
-    log.push(json!({"ev": "quiesce", "pending": w.exec.pending(), "closes": closes}));
+    // bytes the peer sent that the endpoint has neither read nor refused (STOP_SENDING): they stay charged to the connection
+    let unread: Vec<Value> = w.nets.iter().flat_map(|(t, n)| n.unread().into_iter().map(move |(sid, k)| json!({"net": t, "sid": sid, "n": k}))).collect();
+    log.push(json!({"ev": "quiesce", "pending": w.exec.pending(), "closes": closes, "unread": unread}));
     // tear down quietly (drops produce transport effects that are not part of the scenario)
     let evs = log.take();
     w.exec.drop_all();
